@@ -43,7 +43,7 @@ const waitDeadline = 10 * time.Second
 // ---------------------------------------------------------------- scripted directory
 
 type fillAns struct {
-	Kind    int      // 0 ok, 1 not found, 2 error
+	Kind    int      // 0 ok, 1 not found, 2 error, 3 the fill func panics (to the model: an error)
 	Members []string // sorted, unique
 }
 
@@ -66,7 +66,7 @@ type directory struct {
 	begins      chan fillReq
 	nextDirect  dirAns
 	directCalls int
-	auto        bool    // storm mode: fills are answered at once with autoAns, nothing is gated
+	auto        bool // storm mode: fills are answered at once with autoAns, nothing is gated
 	autoAns     fillAns
 }
 
@@ -98,6 +98,8 @@ func (d *directory) fill(group string) ([]string, error) {
 		return append([]string{}, a.Members...), nil
 	case 1:
 		return nil, groups.ErrGroupNotFound
+	case 3:
+		panic("malformed directory response")
 	}
 	return nil, errors.New("directory unavailable")
 }
@@ -124,8 +126,8 @@ func (g googleAdmin) CheckMemberships(gs []string, user string) ([]string, error
 type cognitoAdmin struct{ d *directory }
 
 func (g cognitoAdmin) ListMemberships(group string) ([]string, error) { return g.d.fill(group) }
-func (g cognitoAdmin) CheckMemberships(user string) ([]string, error)  { return g.d.direct() }
-func (g cognitoAdmin) GlobalSignOut(*sessions.SessionState) error      { return nil }
+func (g cognitoAdmin) CheckMemberships(user string) ([]string, error) { return g.d.direct() }
+func (g cognitoAdmin) GlobalSignOut(*sessions.SessionState) error     { return nil }
 
 // scripted inner provider for GroupCache (answers for the access token, like Okta)
 type innerProvider struct {
@@ -184,6 +186,8 @@ type scen struct {
 	nextLoop int
 	hung     bool
 	why      string
+	stuckMu  sync.Mutex
+	stuck    []string // groups whose manual Update let a fill-func panic through: the in-flight mark stays (see doUpdate)
 
 	steps  []string
 	jsteps []interface{}
@@ -258,7 +262,10 @@ func (s *scen) snap() snap {
 		return snap{Cache: map[string][]string{}}
 	}
 	v := s.fc.VerifSnapshot()
-	return snap{Cache: v.Cache, Infl: v.Inflight, Loops: v.Loops}
+	s.stuckMu.Lock()
+	infl := without(v.Inflight, s.stuck...)
+	s.stuckMu.Unlock()
+	return snap{Cache: v.Cache, Infl: infl, Loops: v.Loops}
 }
 
 func has(l []string, x string) bool {
@@ -380,7 +387,21 @@ func (s *scen) doUpdate(g string) {
 	tid := s.nextTid
 	s.nextTid++
 	ret := make(chan bool, 1)
-	go func() { ret <- s.fc.Update(g) }()
+	// A panic of the fill func is, to the model, a failed fill.  The unchanged code lets it through (the
+	// caller's goroutine dies, the in-flight mark stays): the driver recovers it here, records "refresh
+	// failed", hides the stale mark from later snapshots and never touches the group's refresh again
+	// (exec skips update/loop/ask on it).  What the cache holds afterwards is observed as usual.
+	go func() {
+		defer func() {
+			if recover() != nil {
+				s.stuckMu.Lock()
+				s.stuck = append(s.stuck, g)
+				s.stuckMu.Unlock()
+				ret <- false
+			}
+		}()
+		ret <- s.fc.Update(g)
+	}()
 	ev := fmt.Sprintf("UpdateBegin %d %s", tid, c.Str(g))
 	jev := map[string]interface{}{"op": "UpdateBegin", "t": tid, "g": g}
 	select {
@@ -404,6 +425,9 @@ func (s *scen) doRelease(g string, a fillAns) {
 		return
 	}
 	delete(s.pending, g)
+	if a.Kind == 3 && p.ret == nil { // a panic in a loop goroutine would take the driver down
+		a = fillAns{Kind: 2}
+	}
 	ev := fmt.Sprintf("UpdateEnd %d %s %s", p.tid, c.Str(g), coqFill(a))
 	jev := map[string]interface{}{"op": "UpdateEnd", "t": p.tid, "g": g, "ans": a}
 	p.req.reply <- a
@@ -681,6 +705,20 @@ func (s *scen) doLCPurge(k groups.CacheKey) {
 func (s *scen) exec(cm cmd) {
 	if s.hung {
 		return
+	}
+	s.stuckMu.Lock()
+	stuck := append([]string{}, s.stuck...)
+	s.stuckMu.Unlock()
+	if len(stuck) > 0 {
+		touches := has(stuck, cm.G) && (cm.Op == "update" || cm.Op == "loop")
+		if cm.Op == "ask" {
+			for _, g := range cm.Gs {
+				touches = touches || (has(stuck, g) && s.snap().Cache[g] == nil)
+			}
+		}
+		if touches {
+			return
+		}
 	}
 	switch cm.Op {
 	case "update":
@@ -1164,6 +1202,80 @@ type gcQ struct {
 	gs []string
 }
 
+// collidingQuestions returns pairs of questions (asked within the TTL) whose e-mail and joined sorted
+// group list CONCATENATE to the same byte string although they are different questions: a suffix of the
+// e-mail is moved to the front of the (sorted-first) group name, `eve@corp.com`+[`s-admins`] vs
+// `eve@corp.co`+[`ms-admins`].  A key that flattens the pair without a separator (or with one that can
+// occur in either part) makes the second asker receive the first one's answer.  The two users get
+// opposite memberships in the moved group, so the answers differ.  Group names stay inside the guard
+// (no ',', not empty).
+func collidingQuestions(r *c.Rng, us []string, gpool []string, member map[string]map[string]bool, n int) []gcQ {
+	var qs []gcQ
+	for tries := 0; len(qs) < 2*n && tries < 20*n; tries++ {
+		e := us[r.Intn(len(us))]
+		if len(e) < 2 {
+			continue
+		}
+		k := 1 + r.Intn(4)
+		if k >= len(e) {
+			k = len(e) - 1
+		}
+		e1, suf := e[:len(e)-k], e[len(e)-k:]
+		if strings.Contains(suf, ",") {
+			continue
+		}
+		a := pickDistinct(r, gpool, 1+r.Intn(3))
+		sort.Strings(a)
+		b := append([]string{}, a...)
+		b[0] = suf + a[0]
+		sb := append([]string{}, b...)
+		sort.Strings(sb)
+		if e+strings.Join(a, ",") != e1+strings.Join(sb, ",") { // the moved name no longer sorts first: one group only
+			a, b = a[:1], b[:1]
+		}
+		if member[e] == nil {
+			member[e] = map[string]bool{}
+		}
+		if member[e1] == nil {
+			member[e1] = map[string]bool{}
+			for _, g := range gpool {
+				member[e1][g] = r.Chance(0.5)
+			}
+		}
+		in := r.Chance(0.5)
+		member[e][a[0]], member[e1][b[0]] = in, !in
+		for _, g := range a[1:] { // the rest of the answer differs as well, half of the time
+			if r.Chance(0.5) {
+				member[e1][g] = !member[e][g]
+			}
+		}
+		qa, qb := gcQ{e, shuffled(r, a)}, gcQ{e1, shuffled(r, b)}
+		if r.Chance(0.5) {
+			qa, qb = qb, qa
+		}
+		qs = append(qs, qa, qb)
+	}
+	return qs
+}
+
+// insert each pair at random positions of qs, first before second (nothing between them purges: no
+// explicit purge in these histories, TTL 1 h or 0)
+func insertPairs(r *c.Rng, qs []gcQ, pairs []gcQ) []gcQ {
+	for i := 0; i+1 < len(pairs); i += 2 {
+		x, y := r.Intn(len(qs)+1), r.Intn(len(qs)+1)
+		if x > y {
+			x, y = y, x
+		}
+		o := append([]gcQ{}, qs[:x]...)
+		o = append(o, pairs[i])
+		o = append(o, qs[x:y]...)
+		o = append(o, pairs[i+1])
+		o = append(o, qs[y:]...)
+		qs = o
+	}
+	return qs
+}
+
 // run a list of questions against a fresh GroupCache; every user's answer is her own membership
 func runGCQuestions(label string, r *c.Rng, ttl time.Duration, univ []string, member map[string]map[string]bool, qs []gcQ, errRate float64) c.Case {
 	s := newScen(2, false, ttl, univ)
@@ -1225,6 +1337,9 @@ func genGCPopulation(r *c.Rng, label string, nUsers int) c.Case {
 	if r.Chance(0.25) {
 		ttl = 0
 	}
+	if r.Chance(0.7) { // questions that collide once e-mail and group list are flattened into one string
+		qs = insertPairs(r, qs, collidingQuestions(r, us, gpool, member, 2+r.Intn(4)))
+	}
 	return runGCQuestions(label, r, ttl, gpool, member, qs, 0.03)
 }
 
@@ -1261,6 +1376,9 @@ func genGCManySets(r *c.Rng, label string) c.Case {
 	ttl := time.Hour
 	if r.Chance(0.25) {
 		ttl = 0
+	}
+	if r.Chance(0.7) { // questions that collide once e-mail and group list are flattened into one string
+		qs = insertPairs(r, qs, collidingQuestions(r, us, gpool, member, 2+r.Intn(4)))
 	}
 	return runGCQuestions(label, r, ttl, gpool, member, qs, 0.03)
 }
@@ -1332,6 +1450,20 @@ func corpus() []c.Case {
 			{Op: "loop", G: "eng"},
 		}))
 	}
+	// a refresh whose fill func panics is a failed refresh: the cached member list stays
+	for kind := 0; kind < 2; kind++ {
+		out = append(out, runScript("fill-panics", kind, false, 0, g3, []cmd{
+			{Op: "update", G: "eng"}, {Op: "release", G: "eng", Fill: ok("alice", "bob")},
+			{Op: "update", G: "ops"}, {Op: "release", G: "ops", Fill: ok("carol")},
+			{Op: "get", G: "eng"},
+			{Op: "update", G: "eng"}, {Op: "release", G: "eng", Fill: fillAns{Kind: 3}},
+			{Op: "get", G: "eng"}, {Op: "get", G: "ops"},
+			{Op: "ask", U: "alice", Gs: []string{"eng"}, Dir: dirAns{Err: true}},
+			{Op: "ask", U: "carol", Gs: []string{"ops", "eng"}, Dir: dirAns{Err: true}},
+			{Op: "update", G: "sec"}, {Op: "release", G: "sec", Fill: fillAns{Kind: 3}},
+			{Op: "get", G: "sec"},
+		}))
+	}
 	// Cognito only: bad token, empty token, empty username
 	out = append(out, runScript("cognito-profile-errors", 1, false, 0, g3, []cmd{
 		{Op: "ask", U: "alice", Gs: []string{"eng"}, Dir: dirAns{Groups: []string{"eng"}}, Token: "bad"},
@@ -1360,6 +1492,13 @@ func corpus() []c.Case {
 	out = append(out, runScript("gc-empty-collision", 2, false, 0, gcU, []cmd{
 		{Op: "gcask", U: "v", TU: "v", Gs: []string{}, Dir: dirAns{Groups: []string{}}},
 		{Op: "gcask", U: "v", TU: "v", Gs: []string{""}, Dir: dirAns{Err: true}},
+	}))
+	// e-mail and group list that concatenate to the same string are different questions
+	out = append(out, runScript("gc-concat-distinct", 2, false, time.Hour, gcU, []cmd{
+		{Op: "gcask", U: "eve@corp.com", TU: "eve@corp.com", Gs: []string{"s-admins"}, Dir: dirAns{Groups: []string{"s-admins"}}},
+		{Op: "gcask", U: "eve@corp.co", TU: "eve@corp.co", Gs: []string{"ms-admins"}, Dir: dirAns{Groups: []string{}}},
+		{Op: "gcask", U: "eve@corp.co", TU: "eve@corp.co", Gs: []string{"m", "s-admins"}, Dir: dirAns{Groups: []string{"m"}}},
+		{Op: "gcask", U: "eve@corp.com", TU: "eve@corp.com", Gs: []string{"s-admins"}, Dir: dirAns{Groups: []string{}}},
 	}))
 	// witness of C17_provenance_needs_token_guard: the key has the e-mail, the answer is the token's
 	out = append(out, runScript("gc-foreign-token", 2, false, 0, gcU, []cmd{
